@@ -331,6 +331,101 @@ pub fn drive(log: &mut Log) {
         }
     }
 
+    // (a3) the value types themselves: operators vs their documented meaning (LogProb + / - are
+    // product / quotient, Prob + - * / are linear), Sum impls, Default / Zero, PartialOrd, serde
+    // round trip, cap_numerical_overshoot with every epsilon relation. Operands are exact
+    // per-mille values k / 1000.
+    for _ in 0..log.opts.n(40, 400) {
+        case += 1;
+        if !log.mine(case) {
+            continue;
+        }
+        let mut rng = Rng::new(seed, 25, case);
+        if !log.begin("types", json!({"kind": "ops"})) {
+            continue;
+        }
+        let to9 = |x: f64| -> Value {
+            if x.is_nan() {
+                json!({"v": 0, "nan": 1, "inf": 0})
+            } else if x.is_infinite() {
+                json!({"v": if x > 0.0 { 1 } else { -1 }, "nan": 0, "inf": 1})
+            } else {
+                json!({"v": (x * UNIT9).round().max(-2.0e9).min(2.0e9) as i64, "nan": 0, "inf": 0})
+            }
+        };
+        for _ in 0..10 {
+            let k0 = match rng.below(5) { 0 => 0, 1 => 1000, _ => rng.range(1, 999) };
+            let k1 = match rng.below(5) { 0 => 1000, 1 => std::cmp::max(k0, 1), _ => rng.range(1, 1000) };
+            let (p0, p1) = (k0 as f64 / 1000.0, k1 as f64 / 1000.0);
+            let (l0, l1) = (LogProb::from(Prob(p0)), LogProb::from(Prob(p1)));
+            let (q0, q1) = (PHREDProb::from(Prob(p0)), PHREDProb::from(Prob(p1)));
+            log.call("operators", json!({"k0": k0, "k1": k1}), || {
+                let mut la = l0;
+                la += l1;
+                let mut ls = l0;
+                ls -= l1;
+                json!({
+                    "l_add": to9((*(l0 + l1)).exp()), "l_sub": to9((*(l0 - l1)).exp()),
+                    "l_add_assign": to9((*la).exp()), "l_sub_assign": to9((*ls).exp()),
+                    "p_add": to9(*(Prob(p0) + Prob(p1))), "p_sub": to9(*(Prob(p0) - Prob(p1))),
+                    "p_mul": to9(*(Prob(p0) * Prob(p1))), "p_div": to9(*(Prob(p0) / Prob(p1))),
+                    "l_sum_ref": to9((*[l0, l1, l1].iter().sum::<LogProb>()).exp()),
+                    "l_sum_val": to9((*vec![l0, l1].into_iter().sum::<LogProb>()).exp()),
+                    "lt": [(l0 < l1) as u8, (Prob(p0) < Prob(p1)) as u8, (q0 < q1) as u8],
+                    "eq": [(l0 == l1) as u8, (Prob(p0) == Prob(p1)) as u8, (q0 == q1) as u8],
+                    "gt": [(l0 > l1) as u8, (Prob(p0) > Prob(p1)) as u8, (q0 > q1) as u8],
+                    "valid": l0.is_valid() as u8,
+                })
+            });
+            // serde round trip (finite values only: JSON has no infinities)
+            let kf = rng.range(1, 1000);
+            log.call("serde", json!({"k": kf}), || {
+                let p = Prob(kf as f64 / 1000.0);
+                let l = LogProb::from(p);
+                let q = PHREDProb::from(p);
+                let p2: Prob = serde_json::from_str(&serde_json::to_string(&p).unwrap()).unwrap();
+                let l2: LogProb = serde_json::from_str(&serde_json::to_string(&l).unwrap()).unwrap();
+                let q2: PHREDProb = serde_json::from_str(&serde_json::to_string(&q).unwrap()).unwrap();
+                json!({"p": to9(*p2), "l": to9((*l2).exp()), "q": to9(10f64.powf(-*q2 / 10.0))})
+            });
+        }
+        log.call("defaults", json!({}), || {
+            use num_traits::Zero;
+            json!({
+                "logprob_default_neginf": (*LogProb::default() == f64::NEG_INFINITY) as u8,
+                "phred_default_posinf": (*PHREDProb::default() == f64::INFINITY) as u8,
+                "prob_default": to9(*Prob::default()),
+                "logprob_zero_is_zero": LogProb::zero().is_zero() as u8,
+                "prob_zero_is_zero": Prob::zero().is_zero() as u8,
+                "phred_zero_is_zero": PHREDProb::zero().is_zero() as u8,
+                "ln_one_is_zero": LogProb::ln_one().is_zero() as u8,
+                "half_is_zero": LogProb(-0.7).is_zero() as u8,
+                "tiny_is_zero": LogProb(-1.0e6).is_zero() as u8,
+                "ln_one": to9((*LogProb::ln_one()).exp()),
+                "ln_zero_neginf": (*LogProb::ln_zero() == f64::NEG_INFINITY) as u8,
+                "zero_plus": to9((*(LogProb::zero() + LogProb(-1.0))).exp()),
+            })
+        });
+        // cap_numerical_overshoot(v, eps) in units of 1e-9
+        for _ in 0..8 {
+            let en = *rng.pick(&[0i64, 1, 100, 100_000]);
+            let vn = match rng.below(6) {
+                0 => en,
+                1 => en + 1,
+                2 => en - 1,
+                3 => 0,
+                4 => -rng.range(1, 1_000_000),
+                _ => rng.range(1, 200_000),
+            };
+            log.call("cap", json!({"vn": vn, "en": en}), || {
+                let r = LogProb(vn as f64 * 1.0e-9).cap_numerical_overshoot(en as f64 * 1.0e-9);
+                json!({"v": (*r * UNIT9).round() as i64})
+            });
+        }
+        log.oblige("operators_vs_named_methods");
+        log.oblige("cap_overshoot_epsilon_relations");
+    }
+
     // (b) complement around the switch point of ln_1m_exp and over the whole range
     for _ in 0..log.opts.n(150, 1500) {
         case += 1;
@@ -403,6 +498,32 @@ pub fn drive(log: &mut Log) {
         rev.reverse();
         call_sum(log, &rev);
         call_cumsum(log, &rev);
+        // a random permutation (order independence within the tolerance), and the cumulative sum
+        // over iterators without an exact size hint (filter / flat_map)
+        let mut perm = lps.clone();
+        for i in (1..perm.len()).rev() {
+            let j = rng.below(i as u64 + 1) as usize;
+            perm.swap(i, j);
+        }
+        call_sum(log, &perm);
+        if n > 0 {
+            log.oblige("sum_permuted");
+        }
+        {
+            let m = lpmax_of(&perm);
+            let v: Vec<LogProb> = perm.iter().map(|&l| LogProb(l)).collect();
+            log.call("cumsum", ops_json(&perm, m), || {
+                let it = v.iter().cloned().filter(|p| !p.is_nan());
+                let out: Vec<Value> = LogProb::ln_cumsum_exp(it).map(|s| fix(*s, m, UNIT)).collect();
+                json!({"vs": Value::Array(out)})
+            });
+            log.call("cumsum", ops_json(&perm, m), || {
+                let it = v.chunks(3).flat_map(|c| c.iter().cloned());
+                let out: Vec<Value> = LogProb::ln_cumsum_exp(it).map(|s| fix(*s, m, UNIT)).collect();
+                json!({"vs": Value::Array(out)})
+            });
+            log.oblige("cumsum_inexact_size_hint");
+        }
     }
 
     // (d) integration rules on smooth densities
